@@ -1,10 +1,22 @@
 package props
 
-import "testing"
+import (
+	"testing"
+
+	"verif/ref"
+)
 
 // TestSelf* run before every check; a failure means the oracle is broken (exit 2, never a verdict).
 func TestSelfPlumbing(t *testing.T) {
 	if H("a", 1) == H("a", 2) {
 		t.Fatal("hash")
+	}
+}
+
+func TestSelfOracles(t *testing.T) {
+	for name, fn := range map[string]func() error{"1D": ref.SelfTest1D, "QR": ref.SelfTestQR, "DataMatrix": ref.SelfTestDM} {
+		if err := fn(); err != nil {
+			t.Fatalf("oracle self-test %s: %v", name, err)
+		}
 	}
 }
